@@ -8,6 +8,18 @@
   through memory, `flat m segs`), and every operation is `take`/`drop` on it (`Spec.advance`,
   `Spec.split`).
 
+  `Start st` (Fbr.Lemmas.XportStart) = a virtio-fs request before the server touched it: empty
+  access log and dirty log, no fusedev writer, page size > 0, counters that cannot overflow usize
+  (what the constructors guarantee: `constructors_establish_invariants`); `readable st` /
+  `writable st` = the byte addresses of the reader's / writer's buffers; `exec st ops` = the
+  handle table after an arbitrary operation list (`Fbr.XportSys`).
+
+  Notes (DESIGN §7): S5 — the trait-default `*_vectored_at_volatile` use `bufs.first()`; modelled
+  as they are (`Script.writeVectored/readVectored`, kind `dflt`) and all theorems hold for both
+  kinds of file, a leading zero-length buffer just makes such a file transfer 0 bytes.
+  F3 — `FileVolatileSlice::read_slice` used to call `write_slice`; fixed in /repo (681974b), so
+  `bytes_adapter_is_plain_view` is stated at full strength.
+
   `w.log` is the list of raw memory accesses performed (each `copy_nonoverlapping`, each range a
   scripted file touched); `rdAddrs`/`wrAddrs` are the byte addresses read / written, in order.
 -/
@@ -228,8 +240,13 @@ theorem read_returns_request_bytes (b : IoBufs) (w : World) (n : Nat) (hwf : WF 
 /-- **Reads are the request bytes, in order.**  ANY sequence of `read` calls (any buffer sizes,
     including 0 and more than is left) over ANY buffer list: the bytes returned, concatenated in
     call order, followed by what the reader still holds, are exactly the request — nothing
-    skipped, nothing repeated; the counter is the number of bytes handed out. -/
-theorem reads_are_request_bytes_in_order (b : IoBufs) (w : World) (ns : List Nat) (hwf : WF w.mem b.segs)
+    skipped, nothing repeated; the counter is the number of bytes handed out.
+    PARTIAL: the byte-content statement is proved for `read` (and so for `read_exact`/`read_obj`,
+    which only loop over it); for `read_to(_at)`/`read_exact_to` through a scripted file the
+    in-order/exactly-once statement is proved on ADDRESSES for any operation list
+    (`every_reader_op_advances`, `every_byte_moved_exactly_once`), the delivered bytes themselves
+    are compared by the differential run and the `C04:reader-bytes:*` oracles. -/
+theorem reads_are_request_bytes_in_order_partial (b : IoBufs) (w : World) (ns : List Nat) (hwf : WF w.mem b.segs)
     (hov : b.consumed + total b.segs < USIZE) :
     (readMany b w ns).1.flatten ++ flat w.mem (readMany b w ns).2.1.segs = flat w.mem b.segs
       ∧ (readMany b w ns).2.1.consumed = b.consumed + (readMany b w ns).1.flatten.length
@@ -258,8 +275,13 @@ theorem every_writer_op_advances (b : IoBufs) (w : World) (hp : 0 < w.p) (hov : 
 
 /-- **Writes are the concatenation written.**  ANY sequence of `write` calls that fits, over ANY
     list of pairwise non-overlapping buffers inside their regions: afterwards the writer's
-    original buffers hold exactly `data₁ ++ data₂ ++ …` followed by their old content beyond. -/
-theorem writes_are_concatenation (b : IoBufs) (w : World) (datas : List Bytes) (hp : 0 < w.p)
+    original buffers hold exactly `data₁ ++ data₂ ++ …` followed by their old content beyond, and
+    no other byte of memory changed.
+    PARTIAL: content proved for `write` sequences; for `write_vectored` (a loop over `write`),
+    `write_from(_at)` and `write_all_from` the statement is proved on ADDRESSES for any operation
+    list (`every_writer_op_advances`, `every_byte_moved_exactly_once`, `no_byte_written_twice`);
+    their bytes are compared by the differential run and the `C04:writer-bytes:*` oracles. -/
+theorem writes_are_concatenation_partial (b : IoBufs) (w : World) (datas : List Bytes) (hp : 0 < w.p)
     (hnd : (addrs b.segs).Nodup) (hwf : WF w.mem b.segs)
     (hov : b.consumed + total b.segs < USIZE) (hfit : datas.flatten.length ≤ b.available) :
     flat (writeMany b w datas).2.mem b.segs = datas.flatten ++ (flat w.mem b.segs).drop datas.flatten.length
@@ -272,8 +294,10 @@ theorem writes_are_concatenation (b : IoBufs) (w : World) (datas : List Bytes) (
 
 /-- **Split header/data writers.**  Split a writer at `k`; write any data buffers through the
     second part, then any header buffers through the first part (all fitting): the original
-    buffers hold `header ++ (untouched rest of the first k bytes) ++ data ++ (untouched rest)`. -/
-theorem split_writers_concatenate (b a o : IoBufs) (w : World) (k : Nat) (hs : b.splitAt k = .ok (a, o))
+    buffers hold `header ++ (untouched rest of the first k bytes) ++ data ++ (untouched rest)`.
+    PARTIAL: the order data-then-header (the one the server uses) is fixed; arbitrary
+    interleavings of the two writers are covered on addresses by `every_byte_moved_exactly_once`. -/
+theorem split_writers_concatenate_partial (b a o : IoBufs) (w : World) (k : Nat) (hs : b.splitAt k = .ok (a, o))
     (datas hdrs : List Bytes) (hp : 0 < w.p)
     (hnd : (addrs b.segs).Nodup) (hwf : WF w.mem b.segs) (hov : b.consumed + total b.segs < USIZE)
     (hfd : datas.flatten.length ≤ o.available) (hfh : hdrs.flatten.length ≤ a.available) :
@@ -339,8 +363,12 @@ theorem fuse_commit_is_concatenation (f : FuseW) (w : World) (other : Option Fus
 
 /-- **Split header/data writers on /dev/fuse committed together**: fresh writer, split at `k`,
     ANY data into the second part, ANY header into the first (both fitting), `commit(second)`:
-    exactly one record reaches the descriptor and it is `header ++ data`. -/
-theorem fuse_split_header_data_one_record (f a o : FuseW) (w : World) (k : Nat) (hdr data : Bytes)
+    exactly one record reaches the descriptor and it is `header ++ data`.
+    PARTIAL: one data write and one header write, data first; FuseDevWriter theorems are per
+    operation (invariant `len ≤ cap`, split, commit), not yet an induction over arbitrary
+    operation lists as for the virtio-fs handle table; `write_from(_at)` content on /dev/fuse and
+    the async path (DESIGN §7-F13, property C20) are covered by the differential run only. -/
+theorem fuse_split_header_data_one_record_partial (f a o : FuseW) (w : World) (k : Nat) (hdr data : Bytes)
     (hnew : f.len = 0) (hin : f.inMem w.mem) (hs : f.splitAt k = .ok (a, o))
     (hh : hdr.length ≤ k) (hd : data.length ≤ f.cap - k) :
     (FuseW.commit (FuseW.write a (FuseW.write o w data).w hdr).f (FuseW.write a (FuseW.write o w data).w hdr).w
